@@ -556,6 +556,25 @@ func ruleH3(c *Ctx) {
 				}
 			}
 		})
+		// the result is a new object on every path: returning an operand itself (a fast path for an
+		// empty other side) makes later updates of the result change the operand, and vice versa
+		aliasRet := ""
+		eachInstr(fn, func(in ssa.Instruction) {
+			ret, ok := in.(*ssa.Return)
+			if !ok || len(ret.Results) == 0 {
+				return
+			}
+			for _, b := range traceValue(ret.Results[0]).bases {
+				if _, isParam := b.v.(*ssa.Parameter); isParam && len(traceValue(ret.Results[0]).fields) == 0 {
+					aliasRet = c.P.Pos(ret.Pos())
+				}
+			}
+		})
+		if aliasRet != "" && bad == "" {
+			bad = fmt.Sprintf("returns one of its operands itself on some path (%s) instead of a new collection", aliasRet)
+			c.viol(key, c.P.Pos(fn.Pos()), fn.Name()+" "+bad+": the derived collection and the operand are then one object, so an update of either shows in both and a frozen operand yields a frozen result")
+			continue
+		}
 		switch {
 		case bad != "":
 			c.viol(key, c.P.Pos(fn.Pos()), fn.Name()+" "+bad+": the result does not preserve the left operand's element order as the specification requires")
@@ -772,4 +791,159 @@ func onlyCalledByBucketReaders(p *Prog, fn *ssa.Function, depth int) bool {
 		}
 	}
 	return true
+}
+
+// ---------- H7 ----------
+
+func init() {
+	register("H7", "one hash per probe: in every hashtable operation the hash value that selects the bucket chain is the same value that is compared with the stored entry hashes (after the zero-is-reserved normalisation), so a key is looked up in the chain it was inserted into", 3, ruleH7)
+	claim("C12", "H7")
+	claim("C11", "H7")
+}
+
+func ruleH7(c *Ctx) {
+	n := 0
+	var fns []*ssa.Function
+	for _, fn := range c.P.Funcs {
+		if fnPkgPath(fn) == modPath+"/starlark" && fn.Blocks != nil {
+			fns = append(fns, fn)
+		}
+	}
+	// selections: index into hashtable.table computed as (x & mask)
+	type sel struct {
+		fn *ssa.Function
+		in ssa.Instruction
+		hv ssa.Value
+	}
+	var sels []sel
+	hashOperand := func(idx ssa.Value) ssa.Value {
+		for i := 0; i < 4; i++ {
+			switch x := idx.(type) {
+			case *ssa.Convert:
+				idx = x.X
+				continue
+			case *ssa.BinOp:
+				if x.Op == token.AND {
+					// the operand that is not derived from len(table)-1
+					if derivesFromLen(x.Y) {
+						return x.X
+					}
+					if derivesFromLen(x.X) {
+						return x.Y
+					}
+				}
+			}
+			break
+		}
+		return nil
+	}
+	for _, fn := range fns {
+		fn := fn
+		eachInstr(fn, func(in ssa.Instruction) {
+			ia, ok := in.(*ssa.IndexAddr)
+			if !ok {
+				return
+			}
+			ld, ok := ia.X.(*ssa.UnOp)
+			if !ok {
+				return
+			}
+			fa, ok := ld.X.(*ssa.FieldAddr)
+			if !ok {
+				return
+			}
+			if o, f := ownerField(fa); o != "starlark.hashtable" || f != "table" {
+				return
+			}
+			if hv := hashOperand(ia.Index); hv != nil {
+				sels = append(sels, sel{fn, in, hv})
+			}
+		})
+	}
+	// map a selection in a helper (hash is a parameter) to its call sites
+	type probe struct {
+		fn *ssa.Function
+		at ssa.Instruction
+		hv ssa.Value
+	}
+	var probes []probe
+	for _, s := range sels {
+		if prm, ok := s.hv.(*ssa.Parameter); ok {
+			idx := -1
+			for i, q := range s.fn.Params {
+				if q == prm {
+					idx = i
+				}
+			}
+			for _, g := range fns {
+				g := g
+				eachInstr(g, func(in ssa.Instruction) {
+					if ci, ok := in.(ssa.CallInstruction); ok && ci.Common().StaticCallee() == s.fn && idx >= 0 && idx < len(ci.Common().Args) {
+						probes = append(probes, probe{g, in, ci.Common().Args[idx]})
+					}
+				})
+			}
+			continue
+		}
+		probes = append(probes, probe{s.fn, s.in, s.hv})
+	}
+	for _, p := range probes {
+		// comparisons with stored hashes in the same function
+		var cmps []ssa.Value
+		eachInstr(p.fn, func(in ssa.Instruction) {
+			bo, ok := in.(*ssa.BinOp)
+			if !ok || (bo.Op != token.EQL && bo.Op != token.NEQ) {
+				return
+			}
+			isStored := func(v ssa.Value) bool {
+				if u, ok := v.(*ssa.UnOp); ok {
+					if fa, ok := u.X.(*ssa.FieldAddr); ok {
+						o, f := ownerField(fa)
+						return o == "starlark.entry" && f == "hash"
+					}
+				}
+				return false
+			}
+			if isStored(bo.X) {
+				if _, isK := bo.Y.(*ssa.Const); !isK {
+					cmps = append(cmps, bo.Y)
+				}
+			} else if isStored(bo.Y) {
+				if _, isK := bo.X.(*ssa.Const); !isK {
+					cmps = append(cmps, bo.X)
+				}
+			}
+		})
+		if len(cmps) == 0 {
+			continue // a function that only selects (grow re-inserts through insert)
+		}
+		n++
+		key := fnName(p.fn) + ": bucket selection"
+		pos := c.P.Pos(p.at.Pos())
+		bad := false
+		for _, cv := range cmps {
+			if cv != p.hv && !sameValue(cv, p.hv) {
+				bad = true
+			}
+		}
+		if bad {
+			c.viol(key, pos, "the chain is selected with a different hash value than the one compared with the stored hashes (for instance the raw hash before 0 is replaced by 1): a key whose hash is normalised is inserted into one chain and looked up in another")
+		} else {
+			c.ok(key, pos, "selection and comparison use the same value")
+		}
+	}
+	if n < 3 {
+		c.anchorFail("only %d hash probes found in the hashtable", n)
+	}
+}
+
+func derivesFromLen(v ssa.Value) bool {
+	for y := range backSlice(v) {
+		if call, ok := y.(*ssa.Call); ok {
+			if b, ok := call.Call.Value.(*ssa.Builtin); ok && b.Name() == "len" {
+				return true
+			}
+		}
+	}
+	return false
 }
